@@ -35,9 +35,13 @@ type caseSpec struct {
 	Broadcast  bool   `json:"broadcast"`  // delivery path of the mutant
 	ChildFirst bool   `json:"childFirst"` // deliver B's child C before the genuine B
 	Twice      bool   `json:"twice"`      // deliver the mutant twice
+	Pool       int    `json:"pool"`       // B's transactions already in the follower's pool when the mutant arrives: 0 none, 1 all, 2 all but the last
 }
 
-var bodyMuts = []string{"dropTx", "dupTx", "swapTx", "alterAmount", "alterSig", "addTx", "dupTail", "alterPubkey", "emptyBody"}
+var bodyMuts = []string{"dropTx", "dupTx", "swapTx", "alterAmount", "alterSig", "addTx", "dupTail", "alterPubkey", "emptyBody", "blockSig", "blockSig"}
+
+const knownPoolSig = "C28-pool-hash-hit-skips-signature-check"
+
 var headerMuts = []string{"heightPlus", "heightMinus", "txRoot", "stateRoot", "recomputedRootWrongState", "unknownParent"}
 
 var builder *chainfix.Builder
@@ -126,6 +130,11 @@ func mutate(cfg *types.Chain33Config, B *types.Block, c caseSpec) (*types.Block,
 		m.Txs = append(m.Txs, types.Clone(m.Txs[n-1]).(*types.Transaction))
 	case "emptyBody":
 		m.Txs = nil
+	case "blockSig":
+		// a block-level signature that does not verify (made over another message); Block.Signature is not part of
+		// the block hash, so the mutant keeps B's hash
+		k := chainfix.Keys()[c.I%len(chainfix.Keys())]
+		m.Signature = &types.Signature{Ty: types.SECP256K1, Pubkey: k.PubKey().Bytes(), Signature: k.Sign([]byte(fmt.Sprintf("not this block %d", c.J))).Bytes()}
 	case "heightPlus":
 		m.Height++
 	case "heightMinus":
@@ -150,7 +159,7 @@ func mutate(cfg *types.Chain33Config, B *types.Block, c caseSpec) (*types.Block,
 }
 
 func sameBody(a, b *types.Block) bool {
-	if len(a.Txs) != len(b.Txs) {
+	if len(a.Txs) != len(b.Txs) || !bytes.Equal(encSig(a.GetSignature()), encSig(b.GetSignature())) {
 		return false
 	}
 	for i := range a.Txs {
@@ -159,6 +168,13 @@ func sameBody(a, b *types.Block) bool {
 		}
 	}
 	return true
+}
+
+func encSig(s *types.Signature) []byte {
+	if s == nil {
+		return nil
+	}
+	return types.Encode(s)
 }
 
 var refViews = map[string]*chainfix.View{}
@@ -198,6 +214,18 @@ func runCase(t lib.TB, test string, c caseSpec) (bool, bool) {
 	M, sameHash := mutate(cfg, f.B, c)
 	if sameHash && sameBody(M, f.B) {
 		return sameHash, false // mutation was a no-op (e.g. swap of identical)
+	}
+	// the follower may already hold B's transactions in its pool, as it would for a freshly broadcast block
+	if c.Pool > 0 {
+		txs := f.B.Txs
+		if c.Pool == 2 {
+			txs = txs[:len(txs)-1]
+		}
+		for _, tx := range txs {
+			if _, err := n.GetAPI().SendTx(types.Clone(tx).(*types.Transaction)); err != nil {
+				lib.Inconclusive("follower pool refused a valid transaction of B: %v", err)
+			}
+		}
 	}
 	before := n.Snapshot(f.txs, f.addrs)
 	deliveries := 1
@@ -277,15 +305,25 @@ func TestPropInvalidBlocks(t *testing.T) {
 			Trunk: rapid.IntRange(1, 3).Draw(t, "trunk"), NTx: rapid.IntRange(2, 5).Draw(t, "ntx"),
 			I: rapid.IntRange(0, 63).Draw(t, "i"), J: rapid.IntRange(0, 63).Draw(t, "j"),
 			Broadcast: rapid.Bool().Draw(t, "broadcast"), ChildFirst: rapid.Bool().Draw(t, "childFirst"), Twice: rapid.Bool().Draw(t, "twice"),
+			Pool: rapid.SampledFrom([]int{0, 0, 1, 1, 2}).Draw(t, "pool"),
 		}
 		if rapid.IntRange(0, 2).Draw(t, "kind") > 0 {
 			c.Mut = rapid.SampledFrom(bodyMuts).Draw(t, "mut")
 		} else {
 			c.Mut = rapid.SampledFrom(headerMuts).Draw(t, "mut")
 		}
+		if c.Pool > 0 && (c.Mut == "alterSig" || c.Mut == "alterPubkey") && lib.Known(knownPoolSig) {
+			// with the transaction's id in the pool its signature is not verified at all (known finding of C28):
+			// excluded by construction while that finding is listed
+			lib.ExcludedKnown(knownPoolSig)
+			c.Mut = "blockSig"
+		}
 		lib.Eval()
 		same, tolerated := runCase(t, "TestPropInvalidBlocks", c)
 		lib.Class("mut:" + c.Mut)
+		if c.Pool > 0 {
+			lib.Class("txs_in_pool")
+		}
 		if tolerated {
 			lib.Class("tolerated_known")
 		}
